@@ -129,7 +129,7 @@ func scenarioRelay() int {
 			n = ev.Pick(3000, 40000)
 		}
 	}
-	resent, unreachable := 0, 0
+	resent, unreachable, sameVia := 0, 0, 0
 	learn := newLearnModel(len(w.Svcs))
 	// the readiness barriers already taught every service the first UA
 	for s := range w.Svcs {
@@ -350,6 +350,53 @@ func scenarioRelay() int {
 				resent += copies
 			}
 		}
+		if prop == "C01" && c.kind == "backend" && ok && len(obs) == 1 && i%5 == 1 && len(raw) < 30000 {
+			// another request that reuses the Via of this one (method, sent-by and branch the same -
+			// a restarted branch counter, a request sent again with credentials on the old branch):
+			// what is relayed for it is its own image, not the earlier request's
+			c2 := *c
+			c2.id = c.id + "n"
+			m2 := c.in.Clone()
+			wire.SetHeader(m2, "X-Vf", c2.id)
+			wire.SetHeader(m2, "Call-ID", c2.id+"@vf")
+			wire.InsertBefore(m2, "content-length", sip.Header{Name: "Authorization", Value: "Digest username=\"u\", nonce=\"" + g.Alnum(8, 16) + "\""})
+			for k, h := range m2.Headers {
+				if sip.Canon(h.Name) == "cseq" {
+					if f := strings.Fields(h.Value); len(f) == 2 {
+						m2.Headers[k].Value = "4711 " + f[1]
+					}
+				}
+			}
+			body2 := []byte("second request on the branch " + c2.id)
+			m2.Body = body2
+			for k, h := range m2.Headers {
+				if sip.Canon(h.Name) == "content-length" {
+					m2.Headers[k].Value = fmt.Sprint(len(body2))
+				}
+			}
+			c2.in = m2
+			c2.sig = "same-via-as-an-earlier-request," + c.sig
+			if w.Send(c2.path, m2.Bytes(), c2.id) == nil && w.Barrier(c2.path) {
+				obs2 := w.Net.ForCase(c2.id)
+				if len(obs2) == 0 {
+					w.Net.WaitCase(c2.id, func(o []*wire.Obs) bool { return len(o) >= 1 }, w.BarrierWait)
+					obs2 = w.Net.ForCase(c2.id)
+				}
+				c2.nobs = len(obs2)
+				if len(obs2) == 0 {
+					d := relayDetail(&c2, w.Net.ForCase(c.id), "")
+					d["earlier_request_with_the_same_via"] = c.id
+					d["copies_of_the_earlier_request_seen_now"] = len(w.Net.ForCase(c.id))
+					run.Violation("a request that shares method, sent-by and branch with an earlier one was not relayed as itself", d)
+				} else {
+					judgeRelay(run, w, prop, &c2, obs2, branches)
+				}
+				sameVia++
+				cc := c2
+				cc.in = nil
+				cases = append(cases, &cc)
+			}
+		}
 		if run.WantSample() && i > 30 && len(obs) == 1 && len(raw) < 1500 {
 			run.Sample(map[string]any{"kind": c.kind, "ingress": c.path.Proto, "service": c.path.Svc, "input": string(raw), "output": string(obs[0].Raw), "observed_at": obs[0].Ep})
 		}
@@ -380,6 +427,7 @@ func scenarioRelay() int {
 	}
 	run.Observe("oversize_responses_sent_in_between", oversize)
 	run.Observe("messages_sent_a_second_time_byte_for_byte", resent)
+	run.Observe("requests_that_share_method_sent_by_and_branch_with_an_earlier_one", sameVia)
 	run.Observe("egress_monitor_running", w.Net.Sniffing())
 	run.Observe("responses_whose_every_packet_on_the_loopback_device_was_checked", egressJudged)
 	run.Observe("packets_seen_by_the_egress_monitor", w.Net.SnifferPackets())
